@@ -366,6 +366,7 @@ func checkC19(c *Ctx) {
 	c19URLVerbatim(c, builders)
 	c19PathVerbatim(c)
 	c19HookErrorFails(c, builders)
+	c19HandlerFactory(c)
 	c19Suppressors(c, builders)
 	c19HeaderMerge(c)
 	c19SessionKept(c, builders)
@@ -1546,4 +1547,86 @@ func c19HookErrorFails(c *Ctx, builders []*builder) {
 		})
 	}
 	c.R.Min("R-hook-error-fails", 10)
+}
+
+// ---------------------------------------------------------------- R-handler-factory
+// "Through the configured request handler": besides an explicit handler option, the configuration is the replaceable
+// package-level factory (a variable of function type returning the handler interface) called with the configured
+// service name and options. Whatever library code stores into a member of the handler interface type is therefore an
+// explicitly configured handler (a parameter / captured option argument / another such member) or the result of a call
+// THROUGH that variable — never the product of a concrete constructor called directly, which makes the "unset" case
+// disappear and the factory (and WithServiceName / WithHTTPReqHandlerOption) dead for that transport.
+func c19HandlerFactory(c *Ctx) {
+	hT := c.P.RootNamed("HTTPReqHandler")
+	if hT == nil {
+		c.R.Break("R-handler-factory: HTTPReqHandler interface not found")
+		return
+	}
+	isFactoryCall := func(call *ssa.Call) bool {
+		if call.Call.IsInvoke() || ir.StaticCallee(call) != nil {
+			return false
+		}
+		u, ok := call.Call.Value.(*ssa.UnOp)
+		if !ok {
+			return false
+		}
+		g, ok := u.X.(*ssa.Global)
+		return ok && g.Pkg != nil && strings.HasPrefix(g.Pkg.Pkg.Path(), ir.RootPath)
+	}
+	n, nFactory := 0, 0
+	for _, fn := range c.P.LibFns {
+		ir.EachInstr(fn, func(_ *ssa.BasicBlock, _ int, in ssa.Instruction) {
+			st, ok := in.(*ssa.Store)
+			if !ok {
+				return
+			}
+			fa, ok := st.Addr.(*ssa.FieldAddr)
+			if !ok {
+				return
+			}
+			f, _, ok := ir.FieldOf(fa)
+			if !ok || !types.Identical(f.Type, hT) {
+				return
+			}
+			n++
+			why := ""
+			var judge func(v ssa.Value, d int)
+			judge = func(v ssa.Value, d int) {
+				if d > 4 || why != "" {
+					return
+				}
+				switch x := unspill(v).(type) {
+				case *ssa.Parameter, *ssa.FreeVar:
+				case *ssa.Const:
+				case *ssa.Phi:
+					for _, e := range x.Edges {
+						judge(e, d+1)
+					}
+				case *ssa.UnOp:
+					if _, _, isField := ir.LoadedField(x); !isField {
+						if _, isFV := x.X.(*ssa.FreeVar); !isFV {
+							why = "a value of unknown origin"
+						}
+					}
+				case *ssa.Call:
+					if isFactoryCall(x) {
+						nFactory++
+						return
+					}
+					why = "the result of " + ir.CallName(x) + ", called directly"
+				case *ssa.MakeInterface:
+					why = "a value of the concrete type " + ir.TypeStr(x.X.Type())
+				default:
+					why = "a computed value"
+				}
+			}
+			judge(st.Val, 0)
+			c.R.Check(why == "", "R-handler-factory", sprintf("handler stored into %s by %s", f.Key(), fname(fn)), c.Pos(st.Pos()),
+				"an explicitly configured handler or the product of the replaceable factory",
+				sprintf("%s stores %s into %s: the member then is never unset, the replaceable factory NewHTTPReqHandler (with the configured service name and options) is not consulted for it, and the requests of that transport do not go through the configured request handler", fname(fn), why, f.Key()))
+		})
+	}
+	if n < 3 || nFactory < 1 {
+		c.R.Break("R-handler-factory: %d stores into handler members, %d of them factory calls (expected at least 3 and 2)", n, nFactory)
+	}
 }
